@@ -102,7 +102,7 @@ def handleNoisy (fn : String) (args : List String) : Option String := do
         let r := Opda.NoisyF.ppf P d lv
         s!"{hexOfFloat r.1} {hexOfFloat r.2}"))
     | _ => none
-  | "navg" | "navgrep" =>
+  | "navg" | "navglegacy" =>
     match rest with
     | mn :: atol :: cap :: rest =>
       let mn ← parseOptBool? mn
@@ -110,8 +110,8 @@ def handleNoisy (fn : String) (args : List String) : Option String := do
       let cap ← cap.toNat?
       let cap := if cap > 30 then 30 else cap
       let (ns, _) ← takeList parseFloat? rest
-      let rep := fn == "navgrep"
-      match (if rep then Opda.Noisy.avgRunCappedRep P d ns mn atol cap else Opda.Noisy.avgRunCapped P d ns mn atol cap) with
+      let rep := fn == "navg"
+      match (if rep then Opda.Noisy.avgRunCapped P d ns mn atol cap else Opda.Noisy.avgRunCappedLegacy P d ns mn atol cap) with
       | none => some (if cap < 30 then "capped" else "fail")
       | some (i, ts, errs) =>
         let tl := if rep then Opda.Noisy.intLo P d
